@@ -8,24 +8,25 @@ open Spec
 
 /-- `w'` comes from `w` by some `AddResource`/`AddChunk` calls on its ChunkWriter (stated as: every
 ChunkWriter predicate closed under those two holds afterwards), with `inited` unchanged -/
-structure WStep (w w' : Writer) : Prop where
+structure WStep (cw : CodecW) (w w' : Writer) : Prop where
   inited : w'.inited = w.inited
   cw : ∀ P : CW → Prop, (∀ c r, P c → P (c.addResource r).1) →
-    (∀ c d k p s t, P c → P (c.addChunk d k p s t).1) → P w.chunkWriter → P w'.chunkWriter
+    (∀ c d k p s t, (∃ a b rs out, cw.compress a b rs = .ok out ∧ out.codec = k) → P c →
+      P (c.addChunk d k p s t).1) → P w.chunkWriter → P w'.chunkWriter
 
-theorem WStep.refl (w : Writer) : WStep w w := ⟨rfl, fun _ _ _ h => h⟩
-theorem WStep.trans {a b c : Writer} (h1 : WStep a b) (h2 : WStep b c) : WStep a c :=
+theorem WStep.refl (cw : CodecW) (w : Writer) : WStep cw w w := ⟨rfl, fun _ _ _ h => h⟩
+theorem WStep.trans {cw : CodecW} {a b c : Writer} (h1 : WStep cw a b) (h2 : WStep cw b c) : WStep cw a c :=
   ⟨by rw [h2.inited, h1.inited], fun P hr hc h => h2.cw P hr hc (h1.cw P hr hc h)⟩
-theorem WStep.of_eq {w w' : Writer} (h1 : w'.inited = w.inited) (h2 : w'.chunkWriter = w.chunkWriter) : WStep w w' :=
+theorem WStep.of_eq {cw : CodecW} {w w' : Writer} (h1 : w'.inited = w.inited) (h2 : w'.chunkWriter = w.chunkWriter) : WStep cw w w' :=
   ⟨h1, fun _ _ _ h => by rw [h2]; exact h⟩
 
-theorem Writer.useResource_step (cw : CodecW) (w : Writer) (i : Int) : WStep w (Writer.useResource cw w i).1 := by
+theorem Writer.useResource_step (cw : CodecW) (w : Writer) (i : Int) : WStep cw w (Writer.useResource cw w i).1 := by
   unfold Writer.useResource
   simp only
   split
-  · exact WStep.refl w
+  · exact WStep.refl cw w
   · split
-    · exact WStep.refl w
+    · exact WStep.refl cw w
     · split
       · exact WStep.of_eq rfl rfl
       · rename_i wrapped hw
@@ -38,11 +39,11 @@ theorem Writer.useResource_step (cw : CodecW) (w : Writer) (i : Int) : WStep w (
         | none => exact ⟨rfl, fun P hr _ h => key P hr h⟩
 
 theorem Writer.compressAndUse_step (cw : CodecW) (w : Writer) (p0 p1 : Bytes) :
-    WStep w (Writer.compressAndUse cw w p0 p1).1 := by
+    WStep cw w (Writer.compressAndUse cw w p0 p1).1 := by
   unfold Writer.compressAndUse
   simp only
   split
-  · exact WStep.refl w
+  · exact WStep.refl cw w
   · rename_i out hc
     have h1 := Writer.useResource_step cw w out.secondaryResource
     generalize Writer.useResource cw w out.secondaryResource = u1 at *
@@ -60,14 +61,20 @@ theorem Writer.compressAndUse_step (cw : CodecW) (w : Writer) (p0 p1 : Bytes) :
       | some e => exact h1.trans h2
       | none => exact h1.trans h2
 
-theorem WStep.addChunk {w w1 : Writer} (h : WStep w w1) (d k : Nat) (p : Bytes) (s t : Nat) (w2 : Writer)
-    (hi : w2.inited = w1.inited) (hc : w2.chunkWriter = (w1.chunkWriter.addChunk d k p s t).1) : WStep w w2 :=
-  ⟨by rw [hi, h.inited], fun P hr hch h0 => by rw [hc]; exact hch _ _ _ _ _ _ (h.cw P hr hch h0)⟩
+theorem WStep.addChunk {cw : CodecW} {w w1 : Writer} (h : WStep cw w w1) (d k : Nat) (p : Bytes) (s t : Nat)
+    (hk : ∃ a b rs out, cw.compress a b rs = .ok out ∧ out.codec = k) (w2 : Writer)
+    (hi : w2.inited = w1.inited) (hc : w2.chunkWriter = (w1.chunkWriter.addChunk d k p s t).1) : WStep cw w w2 :=
+  ⟨by rw [hi, h.inited], fun P hr hch h0 => by rw [hc]; exact hch _ _ _ _ _ _ hk (h.cw P hr hch h0)⟩
+
+theorem Writer.compressAndUse_ok_compress (cw : CodecW) (w : Writer) (p0 p1 : Bytes) (out : CompressOut) (r2 r3 : Nat)
+    (h : (Writer.compressAndUse cw w p0 p1).2 = .ok (out, r2, r3)) :
+    ∃ a b rs o, cw.compress a b rs = .ok o ∧ o.codec = out.codec :=
+  ⟨p0, p1, w.resourcesData, out, (Writer.compressAndUse_frame cw w p0 p1).2.2.2.2.2.2 out r2 r3 h, rfl⟩
 
 theorem Writer.writeDChunks_step (cw : CodecW) (eof : Bool) (fuel : Nat) :
-    ∀ w : Writer, WStep w (Writer.writeDChunks cw eof fuel w).1 := by
+    ∀ w : Writer, WStep cw w (Writer.writeDChunks cw eof fuel w).1 := by
   induction fuel with
-  | zero => intro w; exact WStep.refl w
+  | zero => intro w; exact WStep.refl cw w
   | succ f ih =>
     intro w
     unfold Writer.writeDChunks
@@ -76,10 +83,13 @@ theorem Writer.writeDChunks_step (cw : CodecW) (eof : Bool) (fuel : Nat) :
     obtain ⟨peek0, peek1⟩ := pk
     simp only
     split
-    · exact WStep.refl w
+    · exact WStep.refl cw w
     · split
-      · exact WStep.refl w
+      · exact WStep.refl cw w
       · have hc := Writer.compressAndUse_step cw w
+          (if (stripTrailingZeroes peek1).length == 0 then stripTrailingZeroes peek0 else peek0)
+          (stripTrailingZeroes peek1)
+        have hk := Writer.compressAndUse_ok_compress cw w
           (if (stripTrailingZeroes peek1).length == 0 then stripTrailingZeroes peek0 else peek0)
           (stripTrailingZeroes peek1)
         generalize Writer.compressAndUse cw w
@@ -92,7 +102,7 @@ theorem Writer.writeDChunks_step (cw : CodecW) (eof : Bool) (fuel : Nat) :
           obtain ⟨out, res2, res3⟩ := v
           simp only at hc ⊢
           have hstep := fun (w2 : Writer) hi hcc =>
-            WStep.addChunk hc (peek0.length + peek1.length) out.codec out.compressed res2 res3 w2 hi hcc
+            WStep.addChunk hc (peek0.length + peek1.length) out.codec out.compressed res2 res3 (hk out res2 res3 rfl) w2 hi hcc
           generalize w1.chunkWriter.addChunk (peek0.length + peek1.length) out.codec out.compressed res2 res3 = ac at *
           obtain ⟨c, e⟩ := ac
           cases e with
@@ -102,13 +112,14 @@ theorem Writer.writeDChunks_step (cw : CodecW) (eof : Bool) (fuel : Nat) :
             exact (hstep { w1 with chunkWriter := c, uncompressed := w1.uncompressed.advance (peek0.length + peek1.length) } rfl rfl).trans (ih _)
 
 theorem Writer.tryCChunk_step (cw : CodecW) (w : Writer) (target : Nat) (force : Bool) :
-    WStep w (Writer.tryCChunk cw w target force).1 := by
+    WStep cw w (Writer.tryCChunk cw w target force).1 := by
   unfold Writer.tryCChunk
   simp only
   generalize w.uncompressed.peek target = pk
   obtain ⟨peek0, peek1⟩ := pk
   simp only
   have hc := Writer.compressAndUse_step cw w peek0 peek1
+  have hk := Writer.compressAndUse_ok_compress cw w peek0 peek1
   generalize Writer.compressAndUse cw w peek0 peek1 = cu at *
   obtain ⟨w1, r⟩ := cu
   cases r with
@@ -116,14 +127,15 @@ theorem Writer.tryCChunk_step (cw : CodecW) (w : Writer) (target : Nat) (force :
   | ok v =>
     obtain ⟨out, res2, res3⟩ := v
     simp only at hc ⊢
+    have hk' := hk out res2 res3 rfl
     split
     · exact hc
     · split
       · generalize hac : w1.chunkWriter.addChunk _ out.codec out.compressed res2 res3 = ac
         obtain ⟨c, e⟩ := ac
         cases e with
-        | some e => exact WStep.addChunk hc _ _ _ _ _ _ rfl (by rw [hac])
-        | none => exact WStep.addChunk hc _ _ _ _ _ _ rfl (by rw [hac])
+        | some e => exact WStep.addChunk hc _ _ _ _ _ hk' _ rfl (by rw [hac])
+        | none => exact WStep.addChunk hc _ _ _ _ _ hk' _ rfl (by rw [hac])
       · split
         · exact hc.trans (WStep.of_eq rfl rfl)
         · rename_i cb el dl hcut
@@ -132,13 +144,13 @@ theorem Writer.tryCChunk_step (cw : CodecW) (w : Writer) (target : Nat) (force :
           · generalize hac : w1.chunkWriter.addChunk _ out.codec (cb.take el) res2 res3 = ac
             obtain ⟨c, e⟩ := ac
             cases e with
-            | some e => exact WStep.addChunk hc _ _ _ _ _ _ rfl (by rw [hac])
-            | none => exact WStep.addChunk hc _ _ _ _ _ _ rfl (by rw [hac])
+            | some e => exact WStep.addChunk hc _ _ _ _ _ hk' _ rfl (by rw [hac])
+            | none => exact WStep.addChunk hc _ _ _ _ _ hk' _ rfl (by rw [hac])
 
 theorem Writer.cChunkInner_step (cw : CodecW) (fuel : Nat) :
-    ∀ (w : Writer) (t : Nat), WStep w (Writer.cChunkInner cw fuel w t).1 := by
+    ∀ (w : Writer) (t : Nat), WStep cw w (Writer.cChunkInner cw fuel w t).1 := by
   induction fuel with
-  | zero => intro w t; exact WStep.refl w
+  | zero => intro w t; exact WStep.refl cw w
   | succ f ih =>
     intro w t
     unfold Writer.cChunkInner
@@ -158,19 +170,19 @@ theorem Writer.cChunkInner_step (cw : CodecW) (fuel : Nat) :
       · exact ht.trans (ih _ _)
 
 theorem Writer.writeCChunks_step (cw : CodecW) (eof : Bool) (fuel : Nat) :
-    ∀ w : Writer, WStep w (Writer.writeCChunks cw eof fuel w).1 := by
+    ∀ w : Writer, WStep cw w (Writer.writeCChunks cw eof fuel w).1 := by
   induction fuel with
-  | zero => intro w; exact WStep.refl w
+  | zero => intro w; exact WStep.refl cw w
   | succ f ih =>
     intro w
     unfold Writer.writeCChunks
     simp only
     by_cases hn : (w.uncompressed.length == 0) = true
-    · rw [if_pos hn]; exact WStep.refl w
+    · rw [if_pos hn]; exact WStep.refl cw w
     · rw [if_neg hn]
       generalize (if (!eof) = true then startingTargetDChunkSize w.cChunkSize else maxTargetDChunkSize) = tg
       by_cases h2 : (!eof && decide (w.uncompressed.length < tg)) = true
-      · rw [if_pos h2]; exact WStep.refl w
+      · rw [if_pos h2]; exact WStep.refl cw w
       · rw [if_neg h2]
         have hi := Writer.cChunkInner_step cw 64 w tg
         generalize Writer.cChunkInner cw 64 w tg = ci at *
@@ -179,7 +191,7 @@ theorem Writer.writeCChunks_step (cw : CodecW) (eof : Bool) (fuel : Nat) :
         | continueOuter => simp only; exact hi.trans (ih _)
         | ret e => exact hi
 
-theorem Writer.write_step (cw : CodecW) (w : Writer) (eof : Bool) : WStep w (Writer.write cw w eof).1 := by
+theorem Writer.write_step (cw : CodecW) (w : Writer) (eof : Bool) : WStep cw w (Writer.write cw w eof).1 := by
   unfold Writer.write
   split
   · exact Writer.writeDChunks_step cw eof _ w
